@@ -20,6 +20,9 @@ var (
 	K        = -1 // number of advances; -1 = drain (bounded by MaxMoves)
 	MaxMoves = 12
 	After    = 2 // advances after exhaustion
+	// NoExtraCur suppresses the occasional second Current() call (multiset comparison of
+	// programs whose order is legitimately random: which value is read twice would differ)
+	NoExtraCur = false
 )
 
 var live []interface{ Stop() }
@@ -100,7 +103,7 @@ func Run[V any](mk func() It[V]) {
 			return
 		}
 		Cur(it)
-		if n%3 == 2 {
+		if n%3 == 2 && !NoExtraCur {
 			Cur(it)
 		}
 		if !ok {
